@@ -250,6 +250,9 @@ func verifC17Live(args []vsx) vsx {
 		return vL(vS("bad-case"))
 	}
 	version, rpc, nreq := args[1].i, args[2].i, int(args[4].i)
+	if version != 1 && version != 2 {
+		return vL(vS("bad-case"))
+	}
 	var raw *conformancev1.RawHTTPResponse
 	if len(args[3].l) == 1 {
 		raw = verifC17Resp(args[3].l[0])
